@@ -635,7 +635,7 @@ pub fn run(ctx: &Ctx) {
     ctx.subspace(&format!("{} field/length/signature/structure edits and re-signed forgeries x 6 stages x 3 kinds", edits.len()), ned, true);
 
     // (b4) random datagrams behind the marker
-    let n: u32 = ctx.tier.pick(2_000, 50_000);
+    let n: u32 = ctx.tier.pick(12_000, 120_000);
     ctx.proptest(
         "pt-random",
         n,
